@@ -4,6 +4,10 @@ From FIM Require Import Base.Str Model.Sliver2Kinds Gen.PropMap Model.Sliver2Map
   Model.Sliver2Deep Model.Sliver2DeepWF Proofs.Sliver2Assoc Proofs.Sliver2MapRT.
 Import ListNotations.
 
+(* the lemmas of this file must not depend on the CONTENT of the regenerated tables *)
+Local Opaque enums type_enum to_base from_base to_specific from_specific setters getters init_attrs
+  sliver_property_to_graph no_unset_properties child_keys node_id_prop.
+
 Definition OForall {A} (P : A -> Prop) (o : option (list A)) : Prop :=
   match o with None => True | Some l => Forall P l end.
 
